@@ -116,6 +116,7 @@ func (p *ClusterProp) Run(seed uint64, tier string, tr *core.Trace) (out *RunOut
 	if su != nil {
 		policy = su.Policy
 	}
+	core.MapOrderDictated = p.Id == "C01" && os.Getenv("OLSIM_MAPORDER") != "native"
 	e, err := core.NewEngine(tr, replay, policy, rng)
 	if err != nil {
 		out.HarnessErr = "engine: " + err.Error()
